@@ -16,7 +16,7 @@ MANIFEST = {
     "note": "csv.DictWriter / filesystem / torch.save are library contracts exercised concretely (log files and saved files are compared by the bounded driver, which also reloads every saved file); str.format on the epoch is the real one",
 }
 EXPLANATION = "symbolic epoch / period; ghost collaborators with call logs; histories with symbolic entries"
-TRUSTED = ["csv.DictWriter writes one row per writerow call", "os.path.join / pathlib and torch.save behave as documented"]
+TRUSTED = ["csv.DictWriter / csv.DictReader are inverse on text fields (the real csv module runs; `open` is replaced by in-memory text files)", "os.path.join / pathlib and torch.save behave as documented"]
 
 
 def configs(tier):
@@ -145,6 +145,88 @@ def _metric(ctx, cfg):
     vc.explore(run_exc, "MetricEvaluator/exception")
     vc.flush()
     ctx.holds("exploration/paths > 0", vc.paths > 0)
+    _metric_log(ctx, SB)
+
+
+class _GhostFiles:
+    """`open` as the evaluator's code sees it: text files kept in memory; everything written is kept per path."""
+
+    def __init__(self):
+        self.text = {}
+        self.modes = []
+
+    def open(self, path, mode="r", *a, **k):
+        import io
+        files = self
+        self.modes.append((path, mode))
+
+        class F(io.StringIO):
+            def close(f):
+                if not f.closed:
+                    files.text[path] = f.getvalue()
+                io.StringIO.close(f)
+        f = F(newline=k.get("newline"))
+        if "a" in mode:
+            f.write(self.text.get(path, ""))
+        elif "w" not in mode:
+            raise OSError("the log is opened for writing only")
+        return f
+
+
+class _Opaque:
+    """A recorded value of which the evaluator knows nothing: its text form is a token that stands for 'this value'."""
+
+    def __init__(self, tag):
+        self.tag = tag
+
+    def __str__(self):
+        return "<%s>" % self.tag
+    __repr__ = __str__
+
+    def __format__(self, spec):
+        return "<%s>" % self.tag
+
+
+def _with_globals(SB, **names):
+    import types
+    for v in vars(SB).values():
+        fn = v if isinstance(v, types.FunctionType) else getattr(v, "__func__", None)
+        if isinstance(fn, types.FunctionType) and fn.__globals__ is not globals():
+            fn.__globals__.update(names)
+
+
+def _metric_log(ctx, SB):
+    """The CSV log read back as CSV: one column per name whatever characters the name or the text of a value contains."""
+    import csv
+    import io
+    files = _GhostFiles()
+    _with_globals(SB, open=files.open)
+    names = ["plain", "KL(p,q)", 'fidelity "Z"', "two words", "semi;colon", "trailing,"]
+    vals = {}
+
+    def mk(nm):
+        def metric(state, **kw):
+            return vals[nm]
+        return metric
+    ev = SB(3, {nm: mk(nm) for nm in names}, verbose=False, log="LOG")
+    st = State()
+    want = []
+    for epoch in range(1, 10):
+        for nm in names:
+            vals[nm] = _Opaque("%s@%d" % (nm.split("(")[0][:4], epoch)) if nm != "trailing," else "a,b \"c\" %d" % epoch
+        ev.on_epoch_end(st, epoch)
+        if epoch % 3 == 0:
+            want.append(dict({"epoch": str(epoch)}, **{nm: str(vals[nm]) for nm in names}))
+    text = files.text.get("LOG", "")
+    rd = csv.DictReader(io.StringIO(text, newline=""))
+    rows = list(rd)
+    ctx.holds("MetricEvaluator/log: read back as CSV the header is 'epoch' followed by the metric names as given (names with commas, quotes, blanks)",
+              rd.fieldnames == ["epoch"] + names, repr(rd.fieldnames))
+    ctx.holds("MetricEvaluator/log: read back as CSV there is one row per evaluated epoch, in order, and each column holds the text of the value recorded under that name",
+              rows == want, repr(rows[:1]))
+    ctx.holds("MetricEvaluator/log: the log file is only ever appended to", all(p == "LOG" and "a" in m for p, m in files.modes) and len(files.modes) == 4)
+    ctx.holds("MetricEvaluator/log: the records do not depend on the log", [e for e, _ in ev.past_values] == [3, 6, 9] and ev.last == {nm: vals[nm] for nm in names})
+    _with_globals(SB, open=open)
 
 
 def _observable(ctx, cfg):
